@@ -113,7 +113,7 @@ func (a *CreateSubscription) Execute(ctx context.Context, tx *ent.Tx) error {
 	var messageFilter *string
 	if a.params.Filter != "" {
 		// validate the filter before we save it
-		if _, err := filter.Parser.ParseString(a.params.Name, a.params.Filter); err != nil {
+		if _, err := filter.Parse(a.params.Name, a.params.Filter); err != nil {
 			return fmt.Errorf("invalid message filter: %w", err)
 		} else {
 			messageFilter = &a.params.Filter
